@@ -16,9 +16,26 @@ pub fn open_slice(data: &[u8]) -> Result<ElfBytes<'_, AnyEndian>, String> {
     ElfBytes::<AnyEndian>::minimal_parse(data).map_err(|e| format!("{e:?}"))
 }
 
+/// A cursor over the bytes that stands at position 0 half of the time and anywhere else (also at or past the end)
+/// otherwise — e.g. where an earlier open attempt with another byte-order spec left the same reader. Deterministic
+/// per (content, call count).
+#[cfg(feature = "elf_std")]
+pub fn cursor_anywhere(data: &[u8]) -> Cursor<&[u8]> {
+    use std::cell::Cell;
+    thread_local! { static N: Cell<u64> = const { Cell::new(0) }; }
+    let n = N.with(|c| { let v = c.get(); c.set(v.wrapping_add(1)); v });
+    let h = crate::rng::mix(crate::rng::fnv64(&data[..data.len().min(64)]) ^ data.len() as u64, n);
+    let mut c = Cursor::new(data);
+    if h & 1 == 1 {
+        let p = match (h >> 1) % 4 { 0 => 16, 1 => data.len() as u64, 2 => data.len() as u64 + 1 + (h >> 8) % 7, _ => (h >> 8) % (data.len() as u64 + 1) };
+        c.set_position(p);
+    }
+    c
+}
+
 #[cfg(feature = "elf_std")]
 pub fn open_stream(data: &[u8]) -> Result<Stream<'_>, String> {
-    ElfStream::<AnyEndian, _>::open_stream(Cursor::new(data)).map_err(|e| format!("{e:?}"))
+    ElfStream::<AnyEndian, _>::open_stream(cursor_anywhere(data)).map_err(|e| format!("{e:?}"))
 }
 
 /// Everything observable of a string table: the strings at every string start, walking
@@ -232,4 +249,27 @@ pub fn int_literals(text: &str) -> Vec<u64> {
         }
     }
     out
+}
+
+/// Length of the per-process huge buffer: just over 4 GiB.
+pub const HUGE_LEN: usize = (1usize << 32) + (1 << 20);
+
+/// Run `f` over a zero-filled slice longer than 4 GiB (native 64-bit only; one buffer per worker process, mapped
+/// lazily, so only the pages a case writes cost memory). `f` must restore every byte it wrote to zero (use `Touched`).
+#[cfg(all(target_pointer_width = "64", not(miri)))]
+pub fn with_huge_buffer<R, F: FnOnce(&mut [u8]) -> R>(f: F) -> Option<R> {
+    use std::cell::RefCell;
+    thread_local! { static BUF: RefCell<Option<Vec<u8>>> = const { RefCell::new(None) }; }
+    BUF.with(|b| {
+        let mut b = b.borrow_mut();
+        if b.is_none() {
+            *b = Some(crate::monitor::alloc::huge_zeroed(HUGE_LEN));
+        }
+        Some(f(&mut b.as_mut().unwrap()[..]))
+    })
+}
+
+#[cfg(not(all(target_pointer_width = "64", not(miri))))]
+pub fn with_huge_buffer<R, F: FnOnce(&mut [u8]) -> R>(_f: F) -> Option<R> {
+    None
 }
